@@ -30,7 +30,7 @@ def findChildLoop (tag k : String) : List Xml → Nat → Except PyExc (Option N
   | c :: cs, i =>
     if c.tag == tag then
       match c.find (tag ++ "ID") with
-      | none => .error .AttributeError          -- `child.find(...)` is None → `.text`
+      | none => findChildLoop tag k cs (i+1)    -- a child without its ID tag is never a match (skipped)
       | some e => if e.text == some k then .ok (some i) else findChildLoop tag k cs (i+1)
     else findChildLoop tag k cs (i+1)
 
